@@ -29,6 +29,7 @@ import (
 	"strconv"
 	"strings"
 	"sync"
+	"time"
 	"unicode/utf8"
 
 	"github.com/openconfig/goyang/pkg/yang"
@@ -670,8 +671,8 @@ func genIntParents(thorough bool) []Case {
 			}
 			b1 := uniq(append(append([]string{}, bounds...), extra...))
 			b2 := uniq(append(append([]string{}, small...), extra...))
-			if !thorough && len(b2) > 12 {
-				b2 = b2[:12]
+			if !thorough && len(b2) > 10 {
+				b2 = b2[:10]
 			}
 			var steps [][]string
 			for _, s := range partsOver(b1) {
@@ -851,51 +852,96 @@ func genRandom(rng *rand.Rand, n int) []Case {
 	return cs
 }
 
-// ordered random chains: sorted bounds so that deep chains succeed often
+// narrowing random chains: every step is built from the set of the step before (sub-intervals of
+// its parts, sometimes split, parts dropped, written in random order, with min/max for the outer
+// bounds now and then), so that deep chains are accepted; with a small probability one bound is
+// pushed one value outside, which must be rejected unless it lands on an adjacent part.
 func genRandomOrdered(rng *rand.Rand, n int) []Case {
+	type iv struct{ a, b int64 }
 	var cs []Case
 	for i := 0; i < n; i++ {
-		base := intTypes[rng.Intn(8)]
-		l := limits[base]
-		lo, _ := strconv.ParseInt(l.lo, 10, 64)
-		var span uint64
-		if base == "uint64" {
-			span = ^uint64(0)
-		} else {
-			hi, _ := strconv.ParseUint(l.hi, 10, 64)
-			span = hi - uint64(lo) // two's complement difference
+		mode := []string{"int", "int", "dec", "len"}[rng.Intn(4)]
+		base, fd := "", 0
+		var lo, hi string
+		switch mode {
+		case "int":
+			base = intTypes[rng.Intn(8)]
+			lo, hi = limits[base].lo, limits[base].hi
+		case "dec":
+			base, fd = "dec", 1+rng.Intn(18)
+			lo, hi = "-9223372036854775808", "9223372036854775807"
+		default:
+			base = "nil"
+			lo, hi = "0", "18446744073709551615"
 		}
-		_ = span
-		// choose 2..8 cut points inside a window of 40 values near one end or around zero
-		anchor := []string{l.lo, l.hi, "0"}[rng.Intn(3)]
-		dir := int64(1)
-		if anchor == l.hi {
-			dir = -1
-		}
-		if anchor == "0" && strings.HasPrefix(base, "int") && rng.Intn(2) == 0 {
-			anchor = "-20"
-		}
-		depth := 1 + rng.Intn(4)
-		var steps []string
-		curLo, curHi := int64(0), int64(40)
-		for d := 0; d < depth; d++ {
-			k := 1 + rng.Intn(3)
-			var pts []int64
-			for j := 0; j < 2*k; j++ {
-				pts = append(pts, curLo+int64(rng.Intn(int(curHi-curLo+1))))
+		// offsets are relative to an anchor: the lower limit (going up), the upper limit (going down) or zero
+		anchor, dir := lo, int64(1)
+		switch rng.Intn(3) {
+		case 1:
+			anchor, dir = hi, -1
+		case 2:
+			if lo != "0" {
+				anchor = "-30"
 			}
-			sort.Slice(pts, func(a, b int) bool { return pts[a] < pts[b] })
-			var parts []string
-			for j := 0; j < k; j++ {
-				a, b := pts[2*j], pts[2*j+1]
-				if dir < 0 {
-					a, b = -b, -a
+		}
+		lit := func(off int64) string {
+			m := addLit(anchor, dir*off)
+			if mode == "dec" {
+				return decLit(m, fd)
+			}
+			return m
+		}
+		cur := []iv{{0, 60}}
+		depth := 1 + rng.Intn(5)
+		var steps []string
+		for d := 0; d < depth; d++ {
+			var next []iv
+			for _, p := range cur {
+				if len(cur) > 1 && rng.Intn(5) == 0 {
+					continue // drop the part
 				}
-				as, bs := addLit(anchor, a), addLit(anchor, b)
-				if rng.Intn(8) == 0 {
+				a := p.a + int64(rng.Intn(int(p.b-p.a)/3+1))
+				b := p.b - int64(rng.Intn(int(p.b-p.a)/3+1))
+				if a > b {
+					a, b = b, a
+				}
+				if b-a >= 4 && rng.Intn(3) == 0 {
+					m := a + 1 + int64(rng.Intn(int(b-a-2)))
+					next = append(next, iv{a, m - 1}, iv{m + 1, b})
+				} else {
+					next = append(next, iv{a, b})
+				}
+			}
+			if len(next) == 0 {
+				next = []iv{cur[0]}
+			}
+			written := append([]iv{}, next...)
+			if rng.Intn(12) == 0 {
+				k := rng.Intn(len(written))
+				if rng.Intn(2) == 0 {
+					written[k].a--
+				} else {
+					written[k].b++
+				}
+			}
+			// set bounds in the direction of the literals
+			minOff, maxOff := next[0].a, next[len(next)-1].b
+			var parts []string
+			for _, p := range written {
+				a, b := p.a, p.b
+				if dir < 0 {
+					a, b = b, a
+				}
+				as, bs := lit(a), lit(b)
+				// min / max are the bounds of the *parent*; use them where the bound coincides with it
+				pmin, pmax := cur[0].a, cur[len(cur)-1].b
+				if dir < 0 {
+					pmin, pmax = pmax, pmin
+				}
+				if a == pmin && rng.Intn(3) == 0 {
 					as = "min"
 				}
-				if rng.Intn(8) == 0 {
+				if b == pmax && rng.Intn(3) == 0 {
 					bs = "max"
 				}
 				if as == bs {
@@ -904,15 +950,16 @@ func genRandomOrdered(rng *rand.Rand, n int) []Case {
 					parts = append(parts, as+".."+bs)
 				}
 			}
-			rng.Shuffle(len(parts), func(a, b int) { parts[a], parts[b] = parts[b], parts[a] })
-			steps = append(steps, strings.Join(parts, "|"))
-			// narrow the window a little
-			if curHi-curLo > 6 {
-				curLo += int64(rng.Intn(3))
-				curHi -= int64(rng.Intn(3))
+			_, _ = minOff, maxOff
+			rng.Shuffle(len(parts), func(x, y int) { parts[x], parts[y] = parts[y], parts[x] })
+			sep := "|"
+			if rng.Intn(5) == 0 {
+				sep = " |\t"
 			}
+			steps = append(steps, strings.Join(parts, sep))
+			cur = next
 		}
-		addCase(&cs, "int", base, 0, steps...)
+		addCase(&cs, mode, base, fd, steps...)
 	}
 	return cs
 }
@@ -1034,6 +1081,10 @@ func listsOver(nums []string, maxParts int) []string {
 
 func genMethods(thorough bool, rng *rand.Rand) []MCase {
 	var ms []MCase
+	// corpus: the witnesses of the two observation theorems of Props/C10.lean (Contains on a list that is
+	// not coalesced; Validate looking at the first part only)
+	ms = append(ms, MCase{Op: "contains", A: "1/0/0~2/0/0,3/0/0~4/0/0", B: "2/0/0~3/0/0"},
+		MCase{Op: "validate", A: "0/0/0~0/0/0,2/0/0~3/0/0,3/0/0~3/0/0"})
 	// small universe 0..4 (adjacency, overlap, containment in every arrangement), lists of <= 2 parts
 	var u5 []string
 	for v := uint64(0); v <= 4; v++ {
@@ -1050,7 +1101,7 @@ func genMethods(thorough bool, rng *rand.Rand) []MCase {
 	sl2 := listsOver(sg, 2)
 	step := 1
 	if !thorough {
-		step = 7
+		step = 13
 	}
 	for i, a := range sl2 {
 		ms = append(ms, MCase{Op: "validate", A: a}, MCase{Op: "sort", A: a}, MCase{Op: "str", A: a})
@@ -1064,12 +1115,16 @@ func genMethods(thorough bool, rng *rand.Rand) []MCase {
 		ms = append(ms, MCase{Op: "validate", A: a}, MCase{Op: "sort", A: a})
 	}
 	// the extremes, integers and decimals
+	estep := 11
+	if !thorough {
+		estep = 41
+	}
 	for _, fd := range []int{0, 1, 18} {
 		ex := []string{numRaw(^uint64(0), fd, true), numRaw(1<<63, fd, true), numRaw(0, fd, false), numRaw(1<<63-1, fd, false), numRaw(1<<63, fd, false), numRaw(^uint64(0)-1, fd, false), numRaw(^uint64(0), fd, false)}
 		el := listsOver(ex, 2)
 		for i, a := range el {
 			ms = append(ms, MCase{Op: "validate", A: a}, MCase{Op: "sort", A: a}, MCase{Op: "str", A: a})
-			for j := (i * 5) % 11; j < len(el); j += 11 {
+			for j := (i * 5) % estep; j < len(el); j += estep {
 				ms = append(ms, MCase{Op: "contains", A: a, B: el[j]}, MCase{Op: "equal", A: a, B: el[j]})
 			}
 		}
@@ -1207,7 +1262,9 @@ func main() {
 	distinct := lib.NewDistinct()
 	var nontriv, evals int64
 	okSteps, errSteps := int64(0), int64(0)
+	depthHist := map[int]int64{}
 	for _, sec := range secs {
+		t0 := time.Now()
 		cases := sec.cases
 		goOuts := runGo(cases, f.Procs)
 		reqs := make([]string, len(cases))
@@ -1235,13 +1292,16 @@ func main() {
 		var found []lib.Disagreement
 		for i, c := range cases {
 			g := strings.Join(goOuts[i], " ; ")
+			depth := 0
 			for _, o := range goOuts[i] {
 				if strings.HasPrefix(o, "ok ") {
 					okSteps++
+					depth++
 				} else if strings.HasPrefix(o, "err ") {
 					errSteps++
 				}
 			}
+			depthHist[depth]++
 			verdict, why := "holds", ""
 			for j := specIdx[i][0]; j < specIdx[i][1]; j++ {
 				if specAns[j] != "holds" {
@@ -1279,9 +1339,11 @@ func main() {
 			res.AddDisagreement(dd)
 		}
 		res.Distribution["cases_"+sec.name] = len(cases)
+		res.Distribution["seconds_"+sec.name] = float64(int(time.Since(t0).Seconds()*10)) / 10
 		evals += int64(len(cases))
 	}
 	// family B
+	tB := time.Now()
 	mcs := genMethods(th, f.Rand(4))
 	mreqs := make([]string, len(mcs))
 	mgo := make([]string, len(mcs))
@@ -1342,9 +1404,13 @@ func main() {
 		}
 	}
 	res.Distribution["cases_methods"] = len(mcs)
+	res.Distribution["seconds_methods"] = float64(int(time.Since(tB).Seconds()*10)) / 10
 	res.Distribution["contains_pairs_checked_against_spec"] = sdcPairs
 	res.Distribution["steps_accepted"] = okSteps
 	res.Distribution["steps_rejected"] = errSteps
+	for d, n := range depthHist {
+		res.Distribution[fmt.Sprintf("chains_with_%d_accepted_steps", d)] = n
+	}
 	evals += int64(len(mcs))
 	res.Evaluations = evals
 	res.DistinctNontrivial = nontriv
